@@ -172,10 +172,14 @@ func (e *Exec) assume(t Term) {
 		return
 	}
 	var ps []string
+	var gs []Term
 	for _, b := range e.bound {
 		ps = append(ps, "("+b.name+" "+b.sort+")")
+		if b.sort == "Int" {
+			gs = append(gs, "(inr64 "+b.name+")")
+		}
 	}
-	e.g.assert(fmt.Sprintf("(forall (%s) %s)", strings.Join(ps, " "), t))
+	e.g.assert(fmt.Sprintf("(forall (%s) %s)", strings.Join(ps, " "), implies(and(gs...), t)))
 }
 
 // typeInv: facts true of every Go value of type t.
@@ -672,13 +676,13 @@ func (e *Exec) instr(b *ssa.BasicBlock, in ssa.Instruction, preds []*ssa.BasicBl
 		n := e.term(x.Len)
 		e.oblige("makeslice", "(>= "+n+" 0)", x.Pos())
 		et := x.Type().Underlying().(*types.Slice).Elem()
-		e.cur[c] = e.def("mk", s, fmt.Sprintf("(mk_%s false ((as const (Array Int %s)) %s) 0 %s)", s, e.g.sortOf(et), e.g.zero(et), n))
+		e.cur[c] = e.def("mk", s, fmt.Sprintf("(mk_%s false %s 0 %s)", s, e.g.constArray("Int", et), n))
 		e.setVal(x, val{cell: c})
 	case *ssa.MakeMap:
 		c := e.newCell(x, x.Type(), "map")
 		s := e.g.sortOf(x.Type())
 		mt := x.Type().Underlying().(*types.Map)
-		e.cur[c] = e.def("mkmap", s, fmt.Sprintf("(mk_%s false ((as const (Array %s %s)) %s) ((as const (Array %s Bool)) false))", s, e.g.sortOf(mt.Key()), e.g.sortOf(mt.Elem()), e.g.zero(mt.Elem()), e.g.sortOf(mt.Key())))
+		e.cur[c] = e.def("mkmap", s, fmt.Sprintf("(mk_%s false %s ((as const (Array %s Bool)) false))", s, e.g.constArray(e.g.sortOf(mt.Key()), mt.Elem()), e.g.sortOf(mt.Key())))
 		e.setVal(x, val{cell: c})
 	case *ssa.FieldAddr:
 		base := e.value(x.X)
@@ -771,7 +775,17 @@ func (e *Exec) instr(b *ssa.BasicBlock, in ssa.Instruction, preds []*ssa.BasicBl
 	case *ssa.MakeInterface:
 		e.makeInterface(x)
 	case *ssa.ChangeInterface:
-		e.setVal(x, e.value(x.X))
+		from, to := e.g.sortOf(x.X.Type()), e.g.sortOf(x.Type())
+		switch {
+		case from == to:
+			e.setVal(x, e.value(x.X))
+		case to == "Any" && from == "Err":
+			e.defVal(x, "(any_err "+e.term(x.X)+")")
+		case to == "Any":
+			e.defVal(x, fmt.Sprintf("(any_other %d %s)", e.w.typeTag(x.X.Type()), e.opaqueID(x.X.Type(), e.term(x.X))))
+		default:
+			e.unsupported("interface conversion " + from + " -> " + to)
+		}
 	case *ssa.ChangeType:
 		e.setVal(x, e.value(x.X))
 	case *ssa.Convert:
